@@ -448,6 +448,13 @@ impl Property for SeqProp {
         s.add(&w.wit);
     }
 
+    fn simplify(&self, op: &Op) -> Vec<Op> {
+        match op {
+            Op::Step { msg, jrot: true } => vec![Op::Step { msg: msg.clone(), jrot: false }],
+            _ => vec![],
+        }
+    }
+
     fn canon(&self, w: &World) -> Option<u64> {
         if !self.dedup {
             return None;
@@ -834,6 +841,17 @@ pub fn prefix(name: &str) -> Vec<Op> {
             "create z",
             "ins z.a=1",
         ]),
+        // a sealed journal (kept back by the lagging y) whose last record of x equals x's highest flushed seqno;
+        // x holds a (removed by the C18 filter) and b (replaced), b written last
+        "sealed_journal_x_flushed" => p(&["ins y.a=1", "ins x.a=1", "ins x.b=1", "rotate x", "step+jrot WorkerMessage:Flush"]),
+        // a sealed journal in which x has a flushed record (b, its highest persisted seqno) AND a later unflushed one
+        // (a): recovery must replay exactly the part that is not in x's tables
+        "sealed_journal_x_half_flushed" => p(&["ins x.b=1", "rotate x", "step WorkerMessage:Flush", "ins x.a=1", "ins y.a=1", "rotate y", "step+jrot WorkerMessage:Flush"]),
+        // x has an unflushed item and no tables at all, y is sealed and about to be flushed
+        "x_unflushed_y_rotated" => p(&["ins x.b=1", "ins y.a=1", "rotate y"]),
+        // a sealed journal holding every record kind, ending in two clear markers (batches without items)
+        // (kept back by the lagging y; z is the keyspace whose flush seals it)
+        "sealed_journal_all_kinds" => p(&["ins y.a=1", "create z", "ins z.a=1", "ins x.a=1", "batch [x.ab=2 y.b=1]", "rem x.a", "clear x", "clear x", "rotate z", "step+jrot WorkerMessage:Flush"]),
         // a cross-keyspace batch whose first keyspace has been flushed, the other not
         "batch_half_flushed" => p(&["ins y.b=1", "batch [x.a=2 y.a=1]", "rotate x", "step WorkerMessage:Flush"]),
         other => panic!("unknown prefix {other}"),
